@@ -46,6 +46,18 @@ pub mod c19;
 pub mod c20;
 
 pub fn run(property: &str, tier: Tier, seed: u64) -> Option<MonOut> {
+    let mut out = run_generated(property, tier, seed)?;
+    // the configurations and the network that the repository ships, driven as they are (see shipped.rs)
+    if let Some(text) = crate::shipped::rule_text(property) {
+        if std::env::var("VERIF_NO_SHIPPED").is_err() {
+            out.report.merge(crate::shipped::run(property, tier, seed));
+            out.rule.push_str(&text);
+        }
+    }
+    Some(out)
+}
+
+fn run_generated(property: &str, tier: Tier, seed: u64) -> Option<MonOut> {
     match property {
         "C01" => Some(c01::run(tier, seed)),
         "C02" => Some(c02::run(tier, seed)),
